@@ -803,7 +803,9 @@ def claim_c01(kind, mm):
     if k in ("Publish", "Pull"):
         return True
     if k in ("Ack", "ModAck", "StreamAckNack", "Job", "DeleteSub", "SeekTime", "SeekSnap", "UpdateSub", "CreateSub", "DeleteTopic"):
-        return "MDels" in mm or "MMsgs" in mm or "delivery" in mm
+        # (a job's removal set is an observed oracle: a job that removed a row it had no right
+        # to remove -- an outstanding delivery, a message still needed -- shows as illegal-choice)
+        return "MDels" in mm or "MMsgs" in mm or "delivery" in mm or (k == "Job" and "illegal-choice" in mm)
     return False
 
 
